@@ -259,11 +259,32 @@ class translation_by_whole_pixels:
             result['b2'].ixmin == result['b1'].ixmin + k and result['b2'].ixmax == result['b1'].ixmax + k
             and result['b2'].iymin == result['b1'].iymin + l and result['b2'].iymax == result['b1'].iymax + l,
         'mask_shape_unchanged': lambda result: result['m1'].data.shape == result['m2'].data.shape,
-        # polygons: the kernel receives absolute vertices, so equality of the values needs the translation invariance of the
-        # crossing-number kernel itself, which the assumed kernel contract does not state: left to the bounded native check
-        'mask_values_unchanged': lambda kind, result, i, j: kind == 'polygon' or (
+        # circle / ellipse / rectangle: the kernels receive coordinates relative to the centre, identical for both regions.
+        # polygons: the kernel receives absolute vertices; equality of the values is the translation invariance of the sampled fraction,
+        # a lemma proved by induction over samples and edges (contracts/k_kernels.py) and applied here
+        'mask_values_unchanged': lambda self, other, k, l, subpixels, mode, kind, result, i, j:
+            _polygon_values(self, other, k, l, subpixels, mode, result, i, j) if kind == 'polygon' else (
             (not in_grid(result['m1'], i, j)) or result['m1'].data[j, i] == result['m2'].data[j, i]),
     }
+
+
+def _polygon_values(self, other, k, l, subpixels, mode, result, i, j):
+    from vprim import uf_application_args, fact, implies
+    from spec.masks import sampled_fraction
+    from contracts.k_kernels import apply_pixel_translation
+    if not in_grid(result['m1'], i, j):
+        return True
+    n = 1 if mode == 'center' else subpixels
+    v1, v2 = result['m1'].data[j, i], result['m2'].data[j, i]
+    a1, a2 = uf_application_args(v1, 'frac_polygon'), uf_application_args(v2, 'frac_polygon')
+    if a1 is None or a2 is None:
+        return v1 == v2          # not kernel values (a re-implementation): nothing to reveal, compare as they are
+    vx, vy, wx, wy = self.vertices.x, self.vertices.y, other.vertices.x, other.vertices.y
+    # the kernel contract, in its revealed form (FRAC is the sampled fraction: discharged from polygonal_overlap.pyx under C02)
+    fact(v1 == sampled_fraction('polygon', (vx, vy), a1[0], a1[1], a1[2], a1[3], n))
+    fact(v2 == sampled_fraction('polygon', (wx, wy), a2[0], a2[1], a2[2], a2[3], n))
+    apply_pixel_translation(vx, vy, wx, wy, a1[0], a1[1], a1[0] + a1[2], a1[1] + a1[3], n, k, l)
+    return v1 == v2
 
 
 REGPOLY = 'regions/shapes/polygon.py::RegularPolygonPixelRegion'
